@@ -11,8 +11,9 @@ sys.path.insert(0, '/repo')
 from pydbml import PyDBML  # noqa: E402
 
 PID = 'C08'
-THEOREMS = []
-MODULES = []
+THEOREMS = ['PyDBML.C08.parse_outcome', 'PyDBML.C08.parseDoc_raises', 'PyDBML.C08.numberValue_raises_only_long',
+            'PyDBML.C08.buildDatabase_error', 'PyDBML.C08.build_wellLinked', 'PyDBML.C08.sql_total', 'PyDBML.C08.parsed_sql_total']
+MODULES = ['PyDBMLProofs.Hoare', 'PyDBMLProofs.Props.C08', 'PyDBMLProofs.Props.C08Render']
 
 SPECIAL = [
     '', '\n', '   ', '// only a comment', '/* block */', '/* unterminated', '﻿', '﻿Table t {\n id int\n}',
@@ -32,6 +33,9 @@ SPECIAL = [
     'Project p {\n k: \'v\'\n k: \'w\'\n Note: \'a\'\n Note { \'b\' }\n}', 'Project p {\n}\nProject q {\n}',
     'Table t {\n id int\n}\nTableGroup g {\n t\n Note: \'a\'\n Note { \'b\' }\n}',
     'Table t {\n a int\n b int\n}\nTable u {\n x int [ref: > t."a,b"]\n}\n', 'Table t {\n a int\n b int\n}\nRef: t."a,b" > t.(a, b)\n',
+    'Table "t{" {\n "a}" "ty{0}"\n}\nTable "u{x}" {\n "b{" "{}"\n}\nRef "n{}": "t{"."a}" <> "u{x}"."b{"\n',
+    'Table "s{".t {\n "{a}" int\n "{0}" int\n}\nRef: "s{".t.("{a}", "{0}") <> "s{".t.("{0}", "{a}") [delete: cascade]\n',
+    'Table "t{" {\n "a}" "ty{0}" [note: \'{n}\', default: \'{d}\']\n indexes {\n  "a}" [name: \'{i}\', note: \'{}\']\n }\n Note: \'{t}\'\n}\nEnum "e{" {\n "i}"\n}\n',
     'Table t {\n a int\n "(a)" int [ref: - t."(a)"]\n}\n', 'Table t {\n a int\n " a " int\n}\nRef: t." a " > t.a\n',
 ]
 
@@ -83,6 +87,9 @@ def run_text(job):
         return {'parse': 'recursion'}
     except Exception as e:  # noqa: BLE001
         return {'parse': O.classify(e)}
+    from pydbml.database import Database
+    if not isinstance(db, Database):
+        return {'parse': 'internal:NotADatabase(' + type(db).__name__ + ')'}
     out = {'parse': 'ok', 'render': render_all(db)}
     try:
         out['dump'] = O.dump_db(db)
@@ -110,6 +117,20 @@ def gen_inputs(ctx):
             jobs.append((db.dbml, spec['allow_properties']))
         except Exception:  # noqa: BLE001
             pass
+    # brace-ified documents: one bare identifier replaced everywhere by a quoted one containing format braces
+    import re as _re
+    for k in range(80 if quick else 1500):
+        r2 = random.Random(f'{ctx.seed}:c08b:{k}')
+        b = r2.choice(base)
+        words = sorted(set(_re.findall(r'(?<![\w"\'`#.])[A-Za-z_][A-Za-z0-9_]*(?![\w"\'`:(])', b)))
+        words = [w for w in words if w.lower() not in ('table', 'ref', 'enum', 'tablegroup', 'project', 'note', 'indexes', 'as', 'null', 'true', 'false',
+                                                       'pk', 'unique', 'increment', 'not', 'primary', 'key', 'cascade', 'restrict', 'set', 'default', 'no', 'action')]
+        if not words:
+            continue
+        for w in r2.sample(words, min(len(words), r2.randint(1, 3))):
+            q = '"' + w + r2.choice(['{', '}', '{}', '{0}', '{c}', '{{']) + '"'
+            b = _re.sub(r'(?<![\w"\'`#.:])' + w + r'(?![\w"\'`:(])', lambda m: q, b)
+        jobs.append((b.replace('> ', r2.choice(['> ', '<> ', '<> ', '- '])), r2.random() < 0.3))
     n = 5000 if quick else 120000
     for _ in range(n):
         k = rng.random()
@@ -213,7 +234,14 @@ def main(tier, seed):
              'API-built databases; random token/character mutants of corpus and spelled documents; token soups; special fragments '
              'spliced into valid documents; random Unicode strings. Every accepted database is rendered whole and element by '
              'element (sql and dbml). Distinct by (text, option) hash',
-        explanation='Oracle: the class of any escaping exception must be a parse error, a pydbml exception or SyntaxError; every '
+        explanation='Theorems (about the model, for ANY input text): parse_outcome - the outcome of PyDBML(text) is a database, a parse error, '
+                    'SyntaxError (column-less table), one of the library exceptions, or ValueError from int() on a literal of more than 4300 digits '
+                    '(numberValue_raises_only_long; known finding HugeInt) and nothing else; parseDoc_raises - proved through a program logic over every '
+                    'grammar rule (Hoare.lean: Raises is closed under all combinators, no primitive raises); buildDatabase_error - every build error is a '
+                    'library exception; parsed_sql_total - .sql of a parsed database evaluates (build_wellLinked: every stored position is in range; '
+                    'sql_total: the SQL renderer is total on well-linked databases). .dbml totality is NOT a theorem: it is false for the two known '
+                    'findings (composite inline reference, line break in a Project/TableGroup name) and is decided by correspondence + oracle. ' +
+                    'Oracle: the class of any escaping exception must be a parse error, a pydbml exception or SyntaxError; every '
                     'rendering of an accepted database must not raise a non-pydbml exception. Correspondence: the Lean model makes '
                     'Python\'s partial operations explicit (min([]), tuple unpacking of split, int() limit, doublequote_string) and '
                     'must predict the same outcome class for parse, db.sql and db.dbml.',
